@@ -177,6 +177,28 @@ def run(ctx):
             except Exception as e:   # noqa
                 fail('tsv|raises|%s' % type(e).__name__, 'tsv round trip raised %r' % e, case)
             # ---------------- pickle: exact, typed
+            # ---------------- a table whose csv text is larger than any buffer a writer may use (> 1 MiB in one call)
+            if ci == 3:
+                big = [['a', 'b']] + [['r%d' % i, rng.choice(['x', 'é', ',']) * 1100] for i in range(1050)]
+                for bkind in ('.csv', '.csv.gz', 'mem'):
+                    try:
+                        if bkind == 'mem':
+                            ms = etl.MemorySource()
+                            etl.tocsv(big, ms, encoding='utf-8')
+                            backb = [tuple(r) for r in etl.fromcsv(etl.MemorySource(ms.getvalue()), encoding='utf-8')]
+                        else:
+                            pb = path(bkind)
+                            etl.tocsv(big[:600], pb, encoding='utf-8')
+                            etl.appendcsv(big[:1] + big[600:], pb, encoding='utf-8')
+                            backb = [tuple(r) for r in etl.fromcsv(pb, encoding='utf-8')]
+                        okb = backb == [tuple(r) for r in big]
+                    except Exception as e:   # noqa
+                        okb, backb = False, repr(e)
+                    ctx.case(('csv-large', bkind))
+                    ctx.count('csv:large')
+                    if not okb:
+                        fail('csv|roundtrip|large', 'a table of 1050 rows x 1100-character cells (more than 1 MiB of csv) does not read back',
+                             {'rows': 1050, 'cell length': 1100, 'source': bkind, 'got': (repr(backb)[:300])})
             # ---------------- the target given as an os.PathLike: writer and reader must treat the name alike
             if ci % 4 == 1:
                 import pathlib
@@ -220,7 +242,8 @@ def run(ctx):
             for lines in (False, True):
                 try:
                     p = path('.json' if not lines else '.jsonl')
-                    etl.tojson(JT, p, lines=lines)
+                    jkw = rng.choice([{}, {}, {'ensure_ascii': False}, {'sort_keys': True}, {'ensure_ascii': False, 'separators': (',', ':')}])     # encoder options pass through
+                    etl.tojson(JT, p, lines=lines, **jkw)
                     back = [tuple(r) for r in etl.fromjson(p, lines=lines)]
                     want = [tuple(r) for r in json.loads(json.dumps(JT))]
                     ctx.case(('json', repr(JT), lines))
@@ -228,7 +251,7 @@ def run(ctx):
                     if [tuple(map(lambda c: json.dumps(c, sort_keys=True), r)) for r in back] != [tuple(map(lambda c: json.dumps(c, sort_keys=True), r)) for r in want]:
                         fail('json|roundtrip|lines=%s' % lines, 'tojson then fromjson does not return the table (JSON types)', {'table': repr(JT), 'got': repr(back)})
                 except Exception as e:   # noqa
-                    fail('json|raises|%s' % type(e).__name__, 'json round trip raised %r' % e, {'table': repr(JT), 'lines': lines})
+                    fail('json|raises|%s' % type(e).__name__, 'json round trip raised %r' % e, {'table': repr(JT), 'lines': lines, 'encoder options': repr(jkw)})
             try:
                 p = path('.json')
                 etl.tojsonarrays(JT, p)
